@@ -17,6 +17,7 @@ Import ListNotations.
 Theorem C09_decl_before_use : forall (o : orders) (p : project) (out : list str),
   ord_ok o -> in_domain p = true ->
   kf_c07_field_result p = false -> kf_c07_odd_name p = false -> kf_c07_inline_mod p = false ->
+  kf_c07_payload_expr p = false ->
   acyclic (spec_graph p) -> emitted_zod o p = Some out ->
   NoDup out /\ forall u v, In u out -> In v out -> In v (schema_refs p u) -> idx_before out v u.
 Proof. exact zod_order_full. Qed.
@@ -28,9 +29,10 @@ Proof. exact zod_order_full. Qed.
 Theorem C09_module_decl_before_use : forall (o : orders) (p : project) cs,
   ord_ok o -> in_domain p = true ->
   kf_c07_field_result p = false -> kf_c07_odd_name p = false -> kf_c07_inline_mod p = false ->
+  kf_c07_payload_expr p = false ->
   acyclic (spec_graph p) -> no_params_suffix p = true ->
   zod_consts o p = Some cs -> decl_before_use cs = true.
-Proof. intros o p cs Ho Hd K5 K6 K7 Hac Hnp H. exact (module_decl_before_use o Ho p Hd K5 K6 K7 Hac Hnp cs H). Qed.
+Proof. intros o p cs Ho Hd K5 K6 K7 K8 Hac Hnp H. exact (module_decl_before_use o Ho p Hd K5 K6 K7 K8 Hac Hnp cs H). Qed.
 
 (* reflection of the run-time oracle *)
 Theorem C09_oracle_exact : forall cs, decl_before_use cs = true <-> DeclBeforeUse cs /\ ParamsLast cs.
@@ -58,9 +60,10 @@ Proof. exact zex_ids. Qed.
 Theorem C09_module_decl_before_use_mapped : forall (o : orders) (p : project) (m : list (str * str)) cs,
   ord_ok o -> in_domain p = true ->
   kf_c07_field_result p = false -> kf_c07_odd_name p = false -> kf_c07_inline_mod p = false ->
+  kf_c07_payload_expr p = false ->
   acyclic (spec_graph p) -> no_params_suffix p = true ->
   zod_consts_m m o p = Some cs -> decl_before_use cs = true.
-Proof. intros o p m cs Ho Hd K5 K6 K7 Hac Hnp H. exact (module_decl_before_use_m o Ho p Hd K5 K6 K7 Hac Hnp m cs H). Qed.
+Proof. intros o p m cs Ho Hd K5 K6 K7 K8 Hac Hnp H. exact (module_decl_before_use_m o Ho p Hd K5 K6 K7 K8 Hac Hnp m cs H). Qed.
 
 (* outside the classes every schema reference to a defined type is a recorded dependency *)
 Theorem C09_edges_recorded : forall p, in_domain p = true ->
